@@ -214,3 +214,32 @@ func VerifC10_V2Precedence() {
 		vnd.Cover("C10.v2.relay-checked")
 	}
 }
+
+// VerifC16_ConfigShapes: execution configurations of any shape the JSON
+// decoder can deliver (null relay entries, proposer entry without key) end in an
+// error or a usable result, never in a crash.
+func VerifC16_ConfigShapes() {
+	pubkey := phase0.BLSPubKey{7}
+	cfg := &ExecutionConfig{Version: 2, Relays: map[string]*BaseRelayConfig{}}
+	switch vnd.Choose("base-relay", 3) {
+	case 1:
+		cfg.Relays["https://base.example"] = &BaseRelayConfig{}
+	case 2:
+		cfg.Relays["https://base.example"] = nil // "relays": {"https://base.example": null}
+	}
+	p := &ProposerConfig{Validator: pubkey}
+	switch vnd.Choose("proposer-relay", 4) {
+	case 1:
+		p.Relays = map[string]*ProposerRelayConfig{"https://base.example": {}}
+	case 2:
+		p.Relays = map[string]*ProposerRelayConfig{"https://base.example": nil}
+	case 3:
+		p.Relays = map[string]*ProposerRelayConfig{"https://new.example": nil}
+	}
+	if vnd.Bool("proposer-without-key") {
+		p.Validator = phase0.BLSPubKey{}
+	}
+	cfg.Proposers = []*ProposerConfig{p}
+	_, _ = cfg.ProposerConfig(context.Background(), nil, pubkey, bellatrix.ExecutionAddress{1}, 30000000)
+	vnd.Cover("C16.config.survived")
+}
